@@ -62,7 +62,7 @@ func validatorCall(c *core.Ctx, fn *ssa.Function, argPath string) (*ssa.Call, *s
 func rangesOverParam(fn *ssa.Function) bool {
 	found := false
 	an.Instrs(fn, func(in ssa.Instruction) {
-		if v, ok := in.(ssa.Value); ok && an.PathOf(v) == "rangeval("+paramPath(fn, 0)+")" {
+		if v, ok := in.(ssa.Value); ok && (an.PathOf(v) == "rangeval("+paramPath(fn, 0)+")" || (an.PathOf(v) == paramPath(fn, 0)+"[*]" && an.InLoop(in.Block()))) {
 			found = true
 		}
 	})
@@ -256,7 +256,19 @@ func checkKindDomain(c *core.Ctx, v *ssa.Function) {
 // which the loop continues must equal want.
 func checkCharset(c *core.Ctx, fn *ssa.Function, want an.Set, what string) {
 	c.CountFuncs(1)
-	checkLoopAccept(c, fn, "rangeval("+paramPath(fn, 0)+")", want, "charset "+what)
+	// the characters are visited by a range loop (runes) or by an index loop (bytes)
+	subject := "rangeval(" + paramPath(fn, 0) + ")"
+	byIndex := paramPath(fn, 0) + "[*]"
+	found := false
+	an.Instrs(fn, func(in ssa.Instruction) {
+		if v, ok := in.(ssa.Value); ok && an.PathOf(v) == subject {
+			found = true
+		}
+	})
+	if !found {
+		subject = byIndex
+	}
+	checkLoopAccept(c, fn, subject, want, "charset "+what)
 }
 
 // checkLoopAccept: subject is defined inside a loop; the set of subject values
